@@ -24,6 +24,9 @@ RULE = ("pop-on programs built from an abstract model: per caption [ENM] RCL, 1-
         "2 captions. "
         'The SCCReader object is fresh or has a past (an ok document ending on a generated '
         'row, a rejected flash cue, a malformed timecode, the same document). '
+        "File layout variants (as in C06): a line spread over frame-contiguous lines at any word "
+        "(also between the two copies of a doubled code), 1-3 blanks between code words, blanks "
+        "for the tab after the timecode, blanks / a tab after the last word. "
         "Blocks of one screen (non-adjacent rows) must carry identical (start, end) with end > "
         "start, whether the screen is erased by EDM, replaced by the next EOC, or never erased. ")
 ASSUMPTIONS = [
